@@ -196,7 +196,10 @@ CLAIMED = {
             "os.urandom/random._urandom wrapped: fed bytes fix the mnemonics regardless of the reseed pattern, every fed bit "
             "is flipped once per length and every entropy bit (incl. the MSB) must react, the seedable generator's state is "
             "unchanged, and with the real OS source 100/2000 mnemonics created after resetting the seedable generator to one "
-            "state are pairwise distinct. Each New is also a trace event: OS bits >= 32N/3, sources, checksum validity.",
+            "state are pairwise distinct. Each New is also a trace event: OS bits >= 32N/3, sources, checksum validity. "
+            "For unbounded histories the same module is instantiated in Apa_Entropy.tla and the conjunction of the state "
+            "invariants is shown INDUCTIVE with Apalache (Init => IndInv; IndInv /\\ Next => IndInv'; the PRNG action "
+            "invariant from every IndInv state; negative test: the 'short' deviation breaks the step).",
             "The mapping from OS bytes to entropy is not constrained; statistical quality of the OS source is out of scope.",
             "DESIGN.md section 5 C08"),
     "C15": ("TLA+ PaperWallet model: whitelist filter implies NoSecretLeaf/NoSecretString/PublicPreserved even with a new "
@@ -256,6 +259,9 @@ def main():
              "kind_free_text": "TLC 1.8 explicit-state model checker: bounded exhaustive models (spec/MC_*.tla), "
                                "trace validation of recorded implementation events (spec/Trace_*.tla), and "
                                "behaviour replay of TLC-generated behaviours into the implementation"},
+            {"name": "apalache", "path": "/verif/harness/tlc.py", "serves_properties": ["C08"],
+             "kind_free_text": "Apalache 0.58 symbolic model checker, used only for the inductive-invariant steps of "
+                               "spec/Apa_Entropy.tla (the TLA+ module Entropy.tla instantiated with typed variables)"},
         ],
         "checks": checks,
         "not_applicable": [{"property_id": p, "reason": "check not built yet (work in progress; planned in DESIGN.md section 5)"}
